@@ -195,3 +195,27 @@ def run(ck, prog):
     ck.ob("R05.6", "find_local-innermost-first", rev, "scopes are iterated in reverse (innermost first)",
           msg="Scopes::find_local does not iterate the scope stack innermost-first")
     ck.count(len(ide))
+
+
+def file_stack_rule(ck, prog, rule):
+    """shared with C06/C17: IndexCtx::push_file/pop_file balanced on every feasible path (ranges are paired
+    with the file on top of this stack)"""
+    g = gf.get(prog)
+    types = ast_facts.ast_types(prog)
+    acc = ast_facts.accessors(prog)
+    oracle = brackets.ChildOracle(prog, g, types, acc)
+    n = 0
+    for b in prog.bodies.values():
+        if b.crate != "ide.rlib":
+            continue
+        callees = {Body.callee(t) for _, t in b.calls()}
+        if (PUSH_FILE not in callees and POP_FILE not in callees) or b.path in (PUSH_FILE, POP_FILE):
+            continue
+        dead, _ = brackets.infeasible_edges(b, prog, oracle)
+        r = brackets.check(b, lambda c: c == PUSH_FILE, lambda c: c == POP_FILE, dead)
+        n += len(r["opens"])
+        bad = r["leaks"] or r["underflows"] or r["unbounded"]
+        ck.ob(rule, "file-stack:%s" % b.path, not bad, "push_file/pop_file balanced on all feasible paths",
+              msg="%s: the include file stack is left unbalanced on some path: every range recorded afterwards is paired "
+                  "with the wrong file" % b.path)
+    ck.floor(rule, "push_file sites", n, 1)
